@@ -153,7 +153,7 @@ def r2_bound_before_bind(repo):
         gs = _g(c, stop=lp)
         unb = ("%s.bound is None" % var, True) in gs
         sub = ("%s.is_subtype(%s.bound)" % (val, var), True) in gs and \
-            (("%s.bound is not None" % var, True) in gs or ("%s.bound" % var, True) in gs)
+            (("%s.bound is None" % var, False) in gs or ("%s.bound" % var, True) in gs)
         obs.append(Ob("C10-R2", "loop-binding#%d:%s<-%s" % (i, var, val), _w(f, c), unb or sub,
                       "binding %s := %s must be dominated by `%s.bound is None` or `%s.is_subtype(%s.bound)`; guards %s"
                       % (var, val, var, val, var, gs)))
@@ -201,11 +201,11 @@ def r3_mismatch(repo):
                 return e
         return None
     cases = [
-        ("different-classes", [("same_type", True), ("type(%s) != type(%s)" % (t1, t2), True)]),
+        ("different-classes", [("same_type", True), ("type(%s) == type(%s)" % (t1, t2), False)]),
         ("target-not-parameterized", [("isinstance(%s, tp.ParameterizedType)" % t1, False)]),
-        ("different-constructors", [("%s.t_constructor != %s.t_constructor" % (t1, t2), True)]),
+        ("different-constructors", [("%s.t_constructor == %s.t_constructor" % (t1, t2), False)]),
         ("wildcard-vs-non-wildcard", [("t_arg2.is_wildcard()", True), ("t_arg1.is_wildcard()", False)]),
-        ("unequal-ground-arguments", [("t_arg1 != t_arg2", True)]),
+        ("unequal-ground-arguments", [("t_arg1 == t_arg2", False)]),
     ]
     for name, conds in cases:
         e = has(conds)
@@ -216,11 +216,11 @@ def r3_mismatch(repo):
             cands = []
             for e2 in empties:
                 gs = _g(e2, stop=lp)
-                if ("t_arg1 != t_arg2", True) in gs and any(
+                if ("t_arg1 == t_arg2", False) in gs and any(
                         ("has_type_variables" in s_ or s_ == "is_type_var") and not pol for s_, pol in gs):
                     cands.append(e2)
             e = cands[0] if cands else None
-            ok = len(cands) == 1 and isinstance(e._parent, ast.If) and src(e._parent.test) == "t_arg1 != t_arg2"
+            ok = len(cands) == 1
         obs.append(Ob("C10-R3", "mismatch:" + name, _w(f, e), ok,
                       "a structural mismatch (%s) must `return {}`" % name))
     # the ground comparison happens for every argument without type variables
